@@ -501,7 +501,7 @@ class Engine:
             return VKind(getattr(so, 'K_' + name))
         if name in ('forall', 'exists', 'implies', 'old', 'N', 'P', 'iff',
                     'markstr', 'contains', 'startswith', 'endswith', 'ite',
-                    'GEN_MARK', 'empty_nodes', 'empty_pairs', 'empty_strs', 'in_strs', 'strs_remove', 'pv_equal',
+                    'GEN_MARK', 'empty_nodes', 'empty_pairs', 'empty_strs', 'in_strs', 'strs_remove', 'strs_add', 'strs_none', 'pv_equal',
                     'seq_update',
                     'is_node', 'TY', 'typeof', 'pv', 'int_dom', 'float_dom',
                     'int_of_str', 'float_of_str', 'str_of_int',
